@@ -34,6 +34,62 @@ def gen_cases(rng, tier):
     return cases
 
 
+def linearity_twins(run, binp, rng, cases, tier):
+    """the coefficients depend linearly on the observations: the same problem with every observation (or one column of several)
+    multiplied by 2^-k is solved by exactly 2^-k times the coefficients — bit for bit, since scaling by a power of two commutes with
+    every floating-point operation of a linear map (no underflow at these sizes). Regular and exactly rank-deficient bases, default
+    and user thresholds."""
+    import copy
+    twins = []
+    pool = [c for c in cases if c.get("profile") != "release"]
+    rd = []
+    for i in range(12 if tier == "quick" else 200):
+        fam = list(RANKDEF)[i % len(RANKDEF)]
+        c = gen_problem(rng, family=fam, quant=(8 if i % 3 else None), eps=rng.choice([1e-6, 1e-3, None]))
+        c["ops"] = [["observe"]]
+        rd.append(c)
+    for c in rng.sample(pool, min(len(pool), 20 if tier == "quick" else 300)) + rd:
+        k = rng.choice([10, 20, 40])
+        f = 2.0 ** -k
+        t = copy.deepcopy(c)
+        Y = [o for o in t["build"] if o[0] == "obs"][-1]
+        S = len(Y[2])
+        cols = list(range(S)) if S == 1 or rng.random() < 0.5 else [rng.randrange(S)]
+        for s in cols:
+            Y[2][s] = [hx(unhx(h) * f, t["scalar"]) for h in Y[2][s]]
+        base = copy.deepcopy(c)
+        base["ops"] = [["observe"]]
+        t["ops"] = [["observe"]]
+        twins.append((base, t, f, cols))
+    flat = []
+    for b, t, f, cols in twins:
+        flat += [b, t]
+    for i, c in enumerate(flat):
+        c["id"] = 9000 + i
+    res = run_harness(binp, "scenario", flat, os.path.join(COQ, "run", "C01"), timeout_ms=20000, tag="lin")
+    n = 0
+    for j, (b, t, f, cols) in enumerate(twins):
+        rb, rt = res[2 * j], res[2 * j + 1]
+        if rb.get("steps") is None or rt.get("steps") is None or not rb["steps"] or not rt["steps"]:
+            continue
+        cb, ct = rb["steps"][0]["v"]["coef"], rt["steps"][0]["v"]["coef"]
+        if cb is None or ct is None:
+            if (cb is None) != (ct is None):
+                run.violation("coefficients are present for one of (problem, problem with scaled observations) only", {"case": b, "scaled": t})
+            continue
+        n += 1
+        for s in range(len(cb["cols"])):
+            want = [unhx(h) * (f if s in cols else 1.0) for h in cb["cols"][s]]
+            got = [unhx(h) for h in ct["cols"][s]]
+            if any(not (a == g or (a != a and g != g)) for a, g in zip(want, got)):
+                run.violation("coefficients are not linear in the observations: column %d of the observations scaled by 2^%d does not give "
+                              "the coefficients scaled by the same factor" % (s, int(round(__import__("math").log2(f)))),
+                              {"case": b, "scaled_case": t, "coefficients": cb, "coefficients_of_scaled_problem": ct, "factor": f, "columns": cols})
+                break
+    run.coverage["linearity_twins_bit_exact"] = n
+    return n
+
+
 def main(tier, seed, replay=None):
     run = Run("C01", tier, seed, "proof")
     rng = random.Random(seed)
@@ -75,6 +131,7 @@ def main(tier, seed, replay=None):
                         sterms.append(t2)
                         sidx.append((c, r, k))
             k += 1
+    nlin = linearity_twins(run, binp, rng, cases[:len(cases)], tier)
     rterms, rhist = states.run_rankdef(run, "C01", binp, rng, 24 if tier == "quick" else 500, (3, 8))
     # the implementation's own factors: contract svd_spec (orthonormal, reconstructing) and the code-shaped truncated solve
     scodes = coq_eval("C01", num.HEADER, sterms, per_file_timeout=1800)
